@@ -542,7 +542,7 @@ but no other interpretation is applied
             recursiveDict = recursive
         else:
             recursiveDict = {}          # dictionary of products we've analysed
-        prodkey = lambda p: "%s-%s" % (p.name, p.version)
+        prodkey = lambda p: (p.name, p.version)   # not "%s-%s": ("a-1", "2") and ("a", "1-2") are different products
 
         if productDictionary is None:
             productDictionary = {}
